@@ -1,3 +1,5 @@
 -- Root of the `NitroVerif` library: everything that must build for the checks.
 import NitroVerif.Gen.Guards
 import NitroVerif.Driver.All
+import NitroVerif.Props.C19
+import NitroVerif.Props.C20
